@@ -1327,8 +1327,13 @@ class RealFloat(numbers.Rational):
 
         # step 6. check if rounding was exact (if so, we're done)
         if lost.is_zero():
-            # just choose one of the rounding modes (RTZ)
-            rand_rm = RoundingMode.RTZ
+            # the extended-precision value sits on a representable value:
+            # either `self` was rounded down to it (or is it), or the rounding
+            # carried up to the next one and every draw must round away
+            if abs(xr) > abs(self):
+                rand_rm = RoundingMode.RAZ
+            else:
+                rand_rm = RoundingMode.RTZ
         else:
             # step 7. normalize `lost` so that `lost.n == n_rand`
             offset = lost._exp - (n_rand + 1)
